@@ -317,7 +317,9 @@ def generate(template_path, with_mutants=False):
         for pos, ex, raw, infos in mutant_sites:
             for f in ex.fns:
                 for m in f.mutants:
-                    mraw, n = re.subn(m["pat"], m["repl"], raw, count=1)
+                    # tolerate prettyplease line breaks: spaces and dots in the pattern match any whitespace around them
+                    pat = m["pat"].replace(" ", r"\s*").replace(r"\.", r"\s*\.\s*")
+                    mraw, n = re.subn(pat, m["repl"], raw, count=1)
                     if n != 1:
                         raise Undecided(f"negative control {f.name}/{m['name']}: pattern not found in extracted text")
                     mt = mraw
